@@ -23,6 +23,8 @@
 (*              SaveFinished/GetFinished)                                  *)
 (*   beacon   : json (Beacon.Marshal/Unmarshal), proto (beaconToProto ->   *)
 (*              wire -> protoToBeacon)                                     *)
+(* On the paths that persist under a fixed name (file, boltcur, boltfin) a  *)
+(* trip may first save another value of the same type under that name.     *)
 (* The expected result of a trip is Normalise(v, path): the identity up to *)
 (* the canonicalisations the code documents ("" and "default" are one id;  *)
 (* an absent genesis seed is the group hash; an empty byte string and an   *)
@@ -76,6 +78,22 @@ PathsOf(t) == CASE t = "group" -> {"toml", "file", "proto"}
                 [] t = "beacon" -> {"json", "proto"}
                 [] t = "badgroup" -> {"toml", "file", "proto", "dbstate"}
 
+\* Paths that persist under a fixed name (file, database key): what is read back must be what
+\* was written LAST, whatever the same name held before.  Overs(t) are the values saved first
+\* in such trips (all shares and pairs; the largest group / database record, so that the new
+\* encoding is shorter than the old one).
+NoValue == [type |-> "none"]
+StorePaths == {"file", "boltcur", "boltfin"}
+Largest(t) ==
+  CASE t = "group" -> [type |-> "group", n |-> MaxNodes, thr |-> "max", transition |-> 1, seed |-> "S",
+                       catchup |-> 1, dist |-> 1, id |-> "default", sig |-> 1]
+    [] t = "dbstate" -> [type |-> "dbstate", status |-> 7, leader |-> 1, remaining |-> 1, joining |-> 1, leaving |-> 1,
+                         acceptors |-> 1, rejectors |-> 1, seed |-> 1, fgroup |-> 1, share |-> 1, timeout |-> 1]
+Overs(t) == CASE t = "share" -> Shares [] t = "pair" -> Pairs
+              [] t = "group" -> {Largest("group")} [] t = "dbstate" -> {Largest("dbstate")}
+              [] OTHER -> {}
+OversOn(t, path) == {NoValue} \cup (IF path \in StorePaths THEN Overs(t) ELSE {})
+
 \* concrete threshold of a group value / a malformed one
 ThrOf(v) == IF v.type = "group" THEN (IF v.thr = "min" THEN MinimumT(v.n) ELSE v.n)
             ELSE CASE v.kind = "thr_zero" -> 0
@@ -123,9 +141,10 @@ DiffFields(v, path, p) ==
 
 Init == val \in AllValues /\ op = [kind |-> "init"]
 
-RoundTrip(path) ==
+\* (the result does not depend on `over`, the value the same name held before)
+RoundTrip(path, over) ==
   /\ val.type # "badgroup" /\ op.kind = "init"
-  /\ op' = [kind |-> "roundtrip", path |-> path, result |-> Normalise(val, path)]
+  /\ op' = [kind |-> "roundtrip", path |-> path, over |-> over, result |-> Normalise(val, path)]
   /\ UNCHANGED val
 
 DecodeMalformed(path) ==
@@ -133,7 +152,9 @@ DecodeMalformed(path) ==
   /\ op' = [kind |-> "malformed", path |-> path, result |-> "Reject"]
   /\ UNCHANGED val
 
-Next == \E path \in PathsOf(val.type) : RoundTrip(path) \/ DecodeMalformed(path)
+Next == \E path \in PathsOf(val.type) :
+          \/ \E over \in OversOn(val.type, path) : RoundTrip(path, over)
+          \/ DecodeMalformed(path)
 
 Spec == Init /\ [][Next]_vars
 
